@@ -111,7 +111,7 @@ def r_dest_owner(ctx):
             rep.instance("%s: %s of .dest" % (b.key, {"r": "read", "w": "write", "b": "borrow"}[kind]))
             rep.oblige(rname in allowed, "DEST-OWNER|%s|%s" % (rname, kind), b.span,
                        "field `dest` is accessed in %s, outside its owners %s" % (b.key, sorted(allowed)))
-    if n < 5:
+    if n < 3:
         raise AnchorLost("R-DEST-OWNER: only %d accesses to TagWriter.dest found" % n)
     # what is called on the destination
     pf = find_one(prog, "TagWriter::private_flush")
@@ -427,5 +427,5 @@ def r_shared_matcher(ctx):
         ok = u.startswith("spec_util::") or (u.startswith("tag_iterator::TagIterator::") and seeds_stack(u))
         rep.instance("%s reads declared paths%s" % (u, "" if u.startswith("spec_util::") else " (seeds the implied ancestors)" if ok else ""))
         rep.oblige(ok, "MATCHER|path-reader|%s" % u, u, "%s consults get_path_by_id outside the shared matcher / closing rules" % u)
-    rep.require_floor(4, "matcher call sites and path readers")
+    rep.require_floor(3, "matcher call sites and path readers")
     return rep
